@@ -619,11 +619,28 @@ class Fam:
             if r.random() < 0.2:
                 cgo = r.sample(["ADD_DIALECT_SUPPORT", "TO_DICT_ADD_OMIT_NONE_FLAG", "TO_DICT_ADD_BY_ALIAS_FLAG", "ADD_SERIALIZATION_CONTEXT"], r.randrange(1, 4))
                 cfg.append("        code_generation_options = [" + ", ".join(cgo) + "]")
-            if r.random() < 0.2 and cfg_strategy_keys:
+            if self.kf_wanted == "table-override-recursion" and self.kf is None and cfg_strategy_keys and not self.future_annotations:
+                # a Config / dialect level strategy whose return annotation leads back to the overridden type: the replacement type
+                # is looked up again (known finding table-override-recursion).  The function returns a hashable value built from
+                # its argument, so to_dict and the rendering of defaults are not affected.
+                k = r.choice(cfg_strategy_keys)
+                ret, body_ = r.choice([(f"Optional[{k}]", "v"), (f"Tuple[{k}, ...]", "(v,)"), (f"Optional[{k}]", "v")])
+                fn = f"ser_back_{name}"
+                self.lines.append(f"def {fn}(v) -> {ret}:\n    return {body_}")
+                if r.random() < 0.5:
+                    cfg.append("        serialization_strategy = {" + k + ': {"serialize": ' + fn + "}}")
+                else:
+                    self.n_dialects += 1
+                    dn = f"Dl{self.n_dialects}"
+                    self.lines.extend([f"class {dn}(Dialect):", "    serialization_strategy = {" + k + ': {"serialize": ' + fn + "}}"])
+                    cfg.append(f"        dialect = {dn}")
+                self.kf = "table-override-recursion"
+                info["table_override_recursion"] = True
+            elif r.random() < 0.2 and cfg_strategy_keys:
                 k = r.choice(cfg_strategy_keys)
                 strat = self.strategy_for(k)
                 cfg.append("        serialization_strategy = {" + k + ": " + strat + "}")
-            if r.random() < 0.2:
+            if r.random() < 0.2 and not info.get("table_override_recursion"):
                 self.n_dialects += 1
                 dn = f"Dl{self.n_dialects}"
                 dl = [f"class {dn}(Dialect):"]
@@ -653,6 +670,8 @@ class Fam:
             if r.random() < 0.05 and not generic:
                 cfg.append('        discriminator = Discriminator(field="kind", include_subtypes=True)')
         info["omit_default"] = any("omit_default = True" in ln for ln in cfg) or bool(info.get("dialect_omit_default"))
+        if parent and self.classes[parent].get("table_override_recursion"):
+            info["table_override_recursion"] = True      # the Config (or its dialect) may be inherited
         if cfg:
             body.append("    class Config(BaseConfig):")
             body.extend(cfg)
@@ -726,6 +745,8 @@ class Fam:
             self.kf_wanted = "field-override-container"
         elif x < 0.28:
             self.kf_wanted = "default-over-string-annotated-namedtuple"
+        elif x < 0.32:
+            self.kf_wanted = "table-override-recursion"
         self.future_annotations = r.random() < float(__import__("os").environ.get("C20_FUT", "0.12"))
         n = n_classes or r.randrange(1, 6)
         names = [f"K{i}" for i in range(n)]
@@ -881,6 +902,7 @@ class Fam:
             "nt_mutable": ("NT3" in t.src) or any("NT3" in f["type"].src for c in reach for f in self.classes[c]["all_fields"]),
             "field_strategy_unannotated": self.kf == "field-strategy-unannotated" and bool(reach),
             "field_override_container": self.kf == "field-override-container" and bool(reach),
+            "table_override_recursion": any(self.classes[c].get("table_override_recursion") for c in reach),
             "bare_name_clash": any(len(v) > 1 for v in gens.values()),
             "generic_uses": sorted([g, a] for g, v in gens.items() for a in v),
         }
